@@ -23,7 +23,7 @@ Proof.
   destruct He as [i x Hi Hcl | i Hi Hcl | k t v rest Hb | k v w eof a rest Hb Hcap Hcl Hw Hc Hs0 | | | w s'' Hw He
                  | w a todo Hw Hc | Hcl Had Hcd | t Ht]; try (apply caps_same with s0; auto; fail).
   - apply caps_same with s0; auto. intros k'. simpl. destruct (Nat.eq_dec k' k) as [->|Hne]; upd_simpl; auto.
-  - destruct He as [i a t rest Hsrc Hc Hb | Hsrc Hc | i Hsrc Hc Hb Hcl | ctl' Hcn
+  - destruct He as [i a t rest Hsrc Hc Hb | Hsrc Hc | i Hsrc Hc Hb Hcl | ctl' Hcn Hdue Hsl Hsls
                    | eof a k0 v rest Hc Hs0 Hcl | eof k0 t r rest Hc Hb | dropped Hp Hnd Hnr Hnc Hwhy | eof a k0 v rest Hc Hs0 Hcl];
       try (apply caps_same with s0; auto; fail).
     + apply caps_same with s0; auto. intros k. simpl. destruct (Nat.eq_dec k k0) as [->|Hne]; upd_simpl; auto.
